@@ -1,7 +1,165 @@
 import AmqModel.Model.ConnRun
-namespace AmqModel.Props.C07
-open AmqModel.Conn
+import AmqModel.Lemmas.ConnC07
+import AmqModel.Props.C03
+import AmqModel.Props.C20
+/-!
+# C07 — server protocol violations are contained: never mis-delivered, never a panic
 
-theorem placeholder : (Conn.init 1 1).dead = false := rfl
+Property theorems only; helper lemmas live in `AmqModel/Lemmas/Conn.lean` (shared) and
+`AmqModel/Lemmas/ConnC07.lean`.
+-/
+namespace AmqModel.Props.C07
+open AmqModel.Conn AmqModel.Collector AmqModel.Props.C03
+
+/-- No frame whatsoever (any channel id, any tag, any announced size, any code), in any state of
+    the connection, panics the frame handler. -/
+theorem process_never_panics (c : Conn) (f : Frame) (dc df : Bytes) :
+    (process c f dc df).2 ≠ some .panic :=
+  np_process c f dc df
+
+/-- … and from every reachable state no step of the I/O thread at all does (C20.batch_no_panic
+    covers events; this adds frames and writes). -/
+theorem io_never_panics (cm b : Nat) (ops : List Op) (hl : ∀ o ∈ ops, ApiLegal o) (o : IoOp) :
+    (ioStep (run (init cm b) ops) o).2.err ≠ some .panic ∧ (ioStep (run (init cm b) ops) o).2.done ≠ some none :=
+  ioStep_no_panic (inv_reachable cm b ops hl) o
+
+/-! The violation table: each class of violation ends the connection with its specific error. -/
+
+theorem header_without_method (c : Conn) (n cid size : Nat) (props dc df : Bytes) (slot : Slot)
+    (hs : c.st = .steady) (hn : n ≠ 0) (hslot : lookupN n c.slots = some slot) (hc : slot.coll = .idle) :
+    (process c (.header n cid size props) dc df).2 = some .frameUnexpected := by
+  rw [process_header_slot hs hn hslot, hc]; rfl
+
+theorem second_header (c : Conn) (n cid size : Nat) (props dc df : Bytes) (slot : Slot) (k : Kind) (sz : Nat) (p buf : Bytes)
+    (hs : c.st = .steady) (hn : n ≠ 0) (hslot : lookupN n c.slots = some slot) (hc : slot.coll = .body k sz p buf) :
+    (process c (.header n cid size props) dc df).2 = some .frameUnexpected := by
+  rw [process_header_slot hs hn hslot, hc]; rfl
+
+theorem body_without_header (c : Conn) (n : Nat) (payload dc df : Bytes) (slot : Slot)
+    (hs : c.st = .steady) (hn : n ≠ 0) (hslot : lookupN n c.slots = some slot)
+    (hc : slot.coll = .idle ∨ ∃ k, slot.coll = .start k) :
+    (process c (.body n payload) dc df).2 = some .frameUnexpected := by
+  rw [process_body_slot hs hn hslot]
+  rcases hc with hc | ⟨k, hc⟩ <;> rw [hc] <;> rfl
+
+theorem body_overrun (c : Conn) (n : Nat) (payload dc df : Bytes) (slot : Slot) (k : Kind) (sz : Nat) (p buf : Bytes)
+    (hs : c.st = .steady) (hn : n ≠ 0) (hslot : lookupN n c.slots = some slot) (hc : slot.coll = .body k sz p buf)
+    (hover : sz < (buf ++ payload).length) :
+    (process c (.body n payload) dc df).2 = some .frameUnexpected := by
+  rw [process_body_slot hs hn hslot, hc, collectBody_over hover]; rfl
+
+/-- A new content-bearing method (Deliver / Return / GetOk) while content is outstanding. -/
+theorem content_method_while_outstanding (c : Conn) (n mid : Nat) (fields : List Field) (dc df : Bytes) (slot : Slot)
+    (hs : c.st = .steady) (hn : n ≠ 0) (hslot : lookupN n c.slots = some slot) (hc : slot.coll ≠ .idle)
+    (hm : (mid = 60 ∧ ∃ tag dtag red ex rk, fields = [.bytes tag, .nat dtag, .bool red, .bytes ex, .bytes rk]) ∨
+          (mid = 50 ∧ ∃ code text ex rk, fields = [.nat code, .bytes text, .bytes ex, .bytes rk]) ∨
+          (mid = 71 ∧ ∃ dtag red ex rk count, fields = [.nat dtag, .bool red, .bytes ex, .bytes rk, .nat count])) :
+    (process c (.method n 60 mid fields) dc df).2 = some .frameUnexpected := by
+  have hu : ∀ k, (afterCollect c n slot (collectMethod slot.coll k)).2 = some .frameUnexpected := by
+    intro k
+    cases hcoll : slot.coll with
+    | idle => exact absurd hcoll hc
+    | start _ => rfl
+    | body _ _ _ _ => rfl
+  rw [process_method_ne0_snd hs hn]
+  rcases hm with ⟨rfl, tag, dtag, red, ex, rk, rfl⟩ | ⟨rfl, code, text, ex, rk, rfl⟩ |
+      ⟨rfl, dtag, red, ex, rk, count, rfl⟩
+  · rw [pcm_deliver, slotGet_of_lookup hslot]; exact hu _
+  · rw [pcm_return, slotGet_of_lookup hslot]; exact hu _
+  · rw [pcm_getOk, slotGet_of_lookup hslot]; exact hu _
+
+/-- Frames for a channel that is not open: content frames and every method the client looks a
+    slot up for. -/
+theorem frame_for_closed_channel (c : Conn) (n : Nat) (dc df : Bytes)
+    (hs : c.st = .steady) (hn : n ≠ 0) (hslot : lookupN n c.slots = none) :
+    (∀ cid size props, (process c (.header n cid size props) dc df).2 = some (.bogusChannel n)) ∧
+    (∀ payload, (process c (.body n payload) dc df).2 = some (.bogusChannel n)) ∧
+    (∀ code text, (process c (.method n 20 40 [.nat code, .bytes text]) dc df).2 = some (.bogusChannel n)) ∧
+    (∀ cls mid fields, isGenericReply cls mid = true → (process c (.method n cls mid fields) dc df).2 = some (.bogusChannel n)) ∧
+    (∀ fields, (process c (.method n 20 41 fields) dc df) = (c, none)) := by
+  refine ⟨fun cid size props => ?_, fun payload => ?_, fun code text => ?_,
+    fun cls mid fields hg => ?_, fun fields => ?_⟩
+  · rw [process_header_noslot hs hn hslot]
+  · rw [process_body_noslot hs hn hslot]
+  · rw [process_method_ne0_snd hs hn, pcm_close_noslot hslot]
+  · rw [process_method_ne0_snd hs hn, pcm_generic hg, slotGet_of_lookup_none hslot]
+  · rw [process_method_ne0 hs hn, pcm_closeOk_noslot hslot]
+    simp [hs]
+
+theorem unknown_consumer_tag (c : Conn) (n : Nat) (slot : Slot) (tag : Bytes) (dtag : Nat) (red : Bool) (ex rk props body : Bytes)
+    (hc : lookupB tag slot.consumers = none) :
+    (dispatchContent c n slot ⟨.deliver tag dtag red ex rk, props, body⟩).2 = some (.unknownConsumerTag n tag) := by
+  simp only [dispatchContent, hc]
+
+theorem duplicate_consumer_tag (c : Conn) (n : Nat) (slot : Slot) (tag dc df : Bytes) (qid : Nat)
+    (hs : c.st = .steady) (hn : n ≠ 0) (hslot : lookupN n c.slots = some slot) (hc : lookupB tag slot.consumers = some qid) :
+    (process c (.method n 60 21 [.bytes tag]) dc df).2 = some (.duplicateConsumerTag n tag) := by
+  rw [process_method_ne0_snd hs hn, pcm_consumeOk_dup hslot hc]
+
+/-- Unimplemented and not-allowed methods, and content on channel 0: no error is returned, the
+    state becomes ClientException, writes are sealed, and — if they were not sealed before — the
+    last thing queued is Connection.Close with the matching hard-error code (540 / 530). -/
+theorem client_exception_outcome (c : Conn) (f : Frame) (dc df : Bytes) (hs : c.st = .steady) (hl : c.legacy = false)
+    (code : Nat)
+    (hf : (code = 540 ∧ ((∃ cls mid fs, f = .method 0 cls mid fs ∧ ¬(cls = 10 ∧ (mid = 50 ∨ mid = 51 ∨ mid = 60 ∨ mid = 61))) ∨
+                          (∃ n cls mid fs, f = .method n cls mid fs ∧ n ≠ 0 ∧ isNotImplemented cls mid = true))) ∨
+          (code = 530 ∧ ((∃ cid size props, f = .header 0 cid size props) ∨ (∃ payload, f = .body 0 payload) ∨
+                          (∃ n cls mid fs, f = .method n cls mid fs ∧ n ≠ 0 ∧ isNotAllowed cls mid = true ∧ isNotImplemented cls mid = false ∧
+                             isGenericReply cls mid = false ∧
+                             (cls, mid) ∉ [(20, 40), (20, 41), (60, 21), (60, 30), (60, 31), (60, 60), (60, 50), (60, 71), (60, 72), (60, 80), (60, 120)])))) :
+    let r := process c f dc df
+    r.2 = none ∧ r.1.st = .clientException ∧ r.1.sealed = true ∧
+    (c.sealed = false → ∃ text, text.length ≤ 255 ∧ r.1.out = c.out ++ connectionClose code text) := by
+  -- every case is `(dropCh0 (clientException c code text), none)` for some text
+  suffices h : ∃ text, process c f dc df = (process.dropCh0 (clientException c code text), none) by
+    obtain ⟨text, e⟩ := h
+    intro r
+    rw [show r = _ from e]
+    exact ⟨rfl, clientException_outcome hl code text⟩
+  rcases hf with ⟨rfl, ⟨cls, mid, fs, rfl, hx⟩ | ⟨n, cls, mid, fs, rfl, hn, hi⟩⟩ |
+      ⟨rfl, ⟨cid, size, props, rfl⟩ | ⟨payload, rfl⟩ | ⟨n, cls, mid, fs, rfl, hn, ha, hi, hg, hsp⟩⟩
+  · exact ⟨_, process_method0_other hs cls mid fs dc df hx⟩
+  · exact ⟨_, by rw [process_method_ne0 hs hn, pcm_notImplemented hi, if_pos (clientException_st _ _ _)]⟩
+  · exact ⟨_, process_header0 hs cid size props dc df⟩
+  · exact ⟨_, process_body0 hs payload dc df⟩
+  · exact ⟨_, by rw [process_method_ne0 hs hn, pcm_notAllowed ha hi hg hsp, if_pos (clientException_st _ _ _)]⟩
+
+/-- The Connection.Close of a client exception is well formed: a strict decoder reads back exactly
+    the code and the (at most 255-byte) text. -/
+def decodeClose (frame : Bytes) : Option (Nat × Bytes) :=
+  match frame with
+  | 1 :: 0 :: 0 :: s3 :: s2 :: s1 :: s0 :: 0 :: 10 :: 0 :: 50 :: c1 :: c0 :: len :: rest =>
+    let size := ((s3 * 256 + s2) * 256 + s1) * 256 + s0
+    if rest.length = len + 5 ∧ size = 4 + 2 + 1 + len + 4 ∧ rest.drop len = [0, 0, 0, 0, 206] then
+      some (c1 * 256 + c0, rest.take len)
+    else none
+  | _ => none
+
+theorem truncUtf8_le (n : Nat) (s : Bytes) : (truncUtf8 n s).length ≤ n :=
+  truncUtf8_length_le n s
+
+theorem truncUtf8_prefix (n : Nat) (s : Bytes) : ∃ t, s = truncUtf8 n s ++ t :=
+  truncUtf8_is_prefix n s
+
+theorem exception_close_wellformed (code : Nat) (text : Bytes) (hc : code < 65536) (ht : text.length ≤ 255) :
+    decodeClose (connectionClose code text) = some (code, text) := by
+  rw [connectionClose_eq]
+  unfold decodeClose
+  have h1 : text.length % 256 = text.length := by omega
+  simp only [h1]
+  rw [if_pos ⟨by simp, by omega, by simp⟩]
+  simp
+  omega
+
+/-- After a client exception nothing else is ever appended to the outbound data and inbound
+    frames are ignored: restated from C20 for completeness of this file. -/
+theorem exception_is_final (c : Conn) (o : IoOp) (hl : c.legacy = false) (hd : c.dead = false)
+    (hst : c.st = .clientException) (hs : c.sealed = true) :
+    ((ioStep c o).2.err = none → (ioStep c o).1.st = .clientException ∧ (ioStep c o).1.sealed = true ∧
+        ∃ k, (ioStep c o).1.out = c.out.drop k) :=
+  (C20.exception_still_reported c o hl hd hst hs).1
+
+/-- D13: before the repair the text was not cut to 255 bytes (here 300 bytes ⇒ length octet 44). -/
+example : (connectionClose 530 (List.replicate 300 65)).getD 13 0 = 44 := by decide +kernel
 
 end AmqModel.Props.C07
